@@ -51,7 +51,9 @@ class Builder:
             # the same code with a hyphen, another code with a space
             body = self.rng.choice([[" continued"], [""], [" continued", "", " more"], ["%d-still going" % code],
                                     ["%d is another code" % (code + 1 if code < 599 else 100)], ["  %d indented" % code],
-                                    ["12", "", ""], ["-"]])
+                                    ["12", "", ""], ["-"],
+                                    # the reply's own code followed by something that is neither a hyphen nor a space
+                                    ["%d0 bytes transferred" % code], ["%d" % code], ["%d\tx" % code, "%dx" % code], ["%d%d y" % (code, code)]])
             text = "\r\n".join(["%d-%s %s" % (code, words, tagtxt)] + body + ["%d end" % code])
         else:
             text = "%d %s %s" % (code, words, tagtxt)
@@ -131,7 +133,7 @@ class Builder:
     def connect(self, login=None, greeting=(220,), auth=234, plan=None, tls_ok=True, **sess_kw):
         plan = plan or {}
         greps = [self.m(c, "service") for c in greeting]
-        g = reaction(greps)
+        g = reaction(greps, close_after=(greeting[-1] == 421))
         stay_plain = sess_kw.pop("stay_plain", False)
         si = self.new_session(g, **sess_kw)
         cmds, reps = [], list(greps)
@@ -158,10 +160,10 @@ class Builder:
             cmds += c2
             reps += r2
             self.cur += re2
-        self.connected = True
+        self.connected = greeting[-1] != 421        # (a 421 - as the greeting too - ends the session: the client closes)
         self.secured = secured
-        return self.add_call(("C", si, login), cmds=cmds, replies=reps, throws=throws, open_after=True, secured_after=secured,
-                             session=si)
+        return self.add_call(("C", si, login), cmds=cmds, replies=reps, throws=throws, open_after=self.connected,
+                             secured_after=secured, session=si)
 
     def login(self, user, pw, plan=None):
         cmds, reps, reacts = self.login_steps(user, pw, plan or {})
